@@ -305,9 +305,8 @@ func (r *Redirect) parseAndClearFlashMessages() {
 	// redirects with new messages overrides this with the new cookie.
 	r.c.Cookie(&Cookie{
 		Name:    FlashCookieName,
-		Path:    "/", // the cookie is issued for "/": the expiry must name the same path, whatever path consumes it
-		Expires: time.Now().Add(-24 * time.Hour),
-		MaxAge:  -1,
+		Path:    "/",                             // the cookie is issued for "/": the expiry must name the same path, whatever path consumes it
+		Expires: time.Now().Add(-24 * time.Hour), // an Expires date, like ClearCookie: understood by every client
 	})
 
 	// Every message takes at least one byte, so a header announcing more messages
